@@ -171,3 +171,127 @@ func ReadFrame(r io.Reader) ([]byte, error) {
 	}
 	return f, nil
 }
+
+// ---------------------------------------------------------------------------
+
+// FrameReader parses successive frames out of a stream's history without
+// consuming from it.
+type FrameReader struct {
+	S   *vconn.Stream
+	Pos int
+}
+
+// Next returns the next complete frame or ErrTimeout.
+func (r *FrameReader) Next(d time.Duration) ([]byte, error) {
+	deadline := time.Now().Add(d)
+	if !r.S.WaitWritten(r.Pos+4, d) {
+		return nil, ErrTimeout
+	}
+	size := int(binary.LittleEndian.Uint32(r.S.Slice(r.Pos, r.Pos+4)))
+	if size < 7 {
+		return nil, fmt.Errorf("peers: frame with size %d at offset %d", size, r.Pos)
+	}
+	if !r.S.WaitWritten(r.Pos+size, time.Until(deadline)) {
+		return nil, ErrTimeout
+	}
+	f := r.S.Slice(r.Pos, r.Pos+size)
+	r.Pos += size
+	return f, nil
+}
+
+// Fake is a scripted R-side peer for a real p9.Client.
+type Fake struct {
+	Client *vconn.End // hand this to p9.NewClient
+	Srv    *vconn.End // the fake server's end
+	In     *FrameReader
+}
+
+// NewFake returns a fake server and the connection end for the client.
+func NewFake() *Fake {
+	a, b := vconn.Pipe()
+	return &Fake{Client: a, Srv: b, In: &FrameReader{S: b.In}}
+}
+
+// Next returns the next request frame the client wrote.
+func (f *Fake) Next(d time.Duration) ([]byte, error) { return f.In.Next(d) }
+
+// Send writes raw bytes to the client.
+func (f *Fake) Send(b []byte) { f.Srv.Out.Write(b) }
+
+// Reply encodes and sends a message.
+func (f *Fake) Reply(m *refcodec.Msg) { f.Send(refcodec.Encode(m)) }
+
+// Close ends the reply stream (the client sees EOF).
+func (f *Fake) Close() { f.Srv.Close() }
+
+// GenericReply builds a plausible success reply for any request: the matching
+// R type with zero fields; reads return count zero bytes (capped by maxData),
+// writes acknowledge every byte, walks return one QID per name.
+func GenericReply(req *refcodec.Msg, maxData int) *refcodec.Msg {
+	r := &refcodec.Msg{Type: req.Type + 1, Tag: req.Tag, F: map[string]any{}}
+	switch req.Type {
+	case refcodec.Tversion:
+		r.F["msize"] = req.U("msize")
+		r.F["version"] = req.S("version")
+	case refcodec.Twalk, refcodec.Twalkgetattr:
+		qs := []refcodec.QID{}
+		for i := range req.Strs("wnames") {
+			qs = append(qs, refcodec.QID{Path: uint64(i + 1)})
+		}
+		r.F["wqids"] = qs
+		if req.Type == refcodec.Twalkgetattr {
+			r.F["valid"] = uint64(0x3fff)
+			a := refcodec.Attr{}
+			a[0] = 0o40755
+			r.F["attr"] = a
+		}
+	case refcodec.Tread:
+		n := int(req.U("count"))
+		if maxData >= 0 && n > maxData {
+			n = maxData
+		}
+		r.F["data"] = make([]byte, n)
+	case refcodec.Twrite:
+		r.F["count"] = uint64(len(req.Bytes("data")))
+	case refcodec.Treaddir:
+		r.F["entries"] = []refcodec.Dirent{}
+	case refcodec.Tgetattr:
+		r.F["valid"] = req.U("request_mask")
+		a := refcodec.Attr{}
+		a[0] = 0o100644
+		r.F["attr"] = a
+	}
+	return r
+}
+
+// Serve answers every request with fn until the stream ends or stop is
+// closed. fn may return nil to stay silent.
+func (f *Fake) Serve(stop <-chan struct{}, fn func(req *refcodec.Msg, raw []byte) []*refcodec.Msg) {
+	for {
+		select {
+		case <-stop:
+			return
+		default:
+		}
+		raw, err := f.Next(50 * time.Millisecond)
+		if err == ErrTimeout {
+			if f.Srv.In.ReaderClosed() {
+				return
+			}
+			continue
+		}
+		if err != nil {
+			return
+		}
+		req, derr := refcodec.DecodeStrict(raw)
+		if derr != nil {
+			req = nil
+		}
+		for _, rep := range fn(req, raw) {
+			f.Reply(rep)
+		}
+	}
+}
+
+var _ = io.EOF
+var _ = sync.Mutex{}
